@@ -75,6 +75,8 @@ type seeCtx struct {
 	stack  map[*ssa.Function]bool
 	active map[ssa.Value]bool
 	memo   map[ssa.Value]*Expr
+	at     ssa.Instruction // load site for store-kill filtering
+	ps     *pstate         // path being enumerated (nil outside path mode)
 }
 
 // Of returns the expression for v evaluated in its own function, without
@@ -178,7 +180,7 @@ func (c *seeCtx) of1(v ssa.Value) *Expr {
 	case *ssa.UnOp:
 		switch v.Op {
 		case token.MUL:
-			return c.load(v.X)
+			return c.loadAt(v.X, v)
 		case token.ARROW:
 			return &Expr{Op: OpRecv, Args: []*Expr{c.of(v.X)}, CommaOk: v.CommaOk}
 		default:
@@ -207,6 +209,24 @@ func (c *seeCtx) of1(v ssa.Value) *Expr {
 		}
 		return mkPhi(alts, v.Type())
 	case *ssa.Extract:
+		if sel, ok := v.Tuple.(*ssa.Select); ok {
+			switch {
+			case v.Index == 0:
+				return &Expr{Op: OpUnknown, Name: "select.index", V: sel, Typ: v.Type()}
+			case v.Index == 1:
+				return &Expr{Op: OpUnknown, Name: "select.recvOk", V: sel, Typ: v.Type()}
+			default:
+				k := 0
+				for _, st := range sel.States {
+					if st.Dir == types.RecvOnly {
+						if k == v.Index-2 {
+							return &Expr{Op: OpRecv, Args: []*Expr{c.of(st.Chan)}, Typ: v.Type(), Name: "select", V: v}
+						}
+						k++
+					}
+				}
+			}
+		}
 		t := c.of(v.Tuple)
 		return extractOf(t, v.Index, v.Type())
 	case *ssa.Call:
@@ -396,7 +416,18 @@ func fieldOf(base *Expr, f *types.Var, idx int) *Expr {
 }
 
 // load returns the value stored at address addr.
-func (c *seeCtx) load(addr ssa.Value) *Expr {
+func (c *seeCtx) load(addr ssa.Value) *Expr { return c.loadAt(addr, nil) }
+
+// loadAt returns the value stored at addr as seen by the load instruction at
+// (nil = flow-insensitive).
+func (c *seeCtx) loadAt(addr ssa.Value, at ssa.Instruction) *Expr {
+	prev := c.at
+	c.at = at
+	defer func() { c.at = prev }()
+	return c.load1(addr)
+}
+
+func (c *seeCtx) load1(addr ssa.Value) *Expr {
 	switch a := addr.(type) {
 	case *ssa.Alloc:
 		return c.loadAlloc(a, nil)
@@ -407,7 +438,7 @@ func (c *seeCtx) load(addr ssa.Value) *Expr {
 		if root, path := allocRoot(a); root != nil {
 			return c.loadAlloc(root, path)
 		}
-		base := c.load(a.X) // value of the struct pointed to
+		base := c.load1(a.X) // value of the struct pointed to
 		return fieldOf(base, f, a.Field)
 	case *ssa.IndexAddr:
 		return &Expr{Op: OpElem, Args: []*Expr{c.deref(a.X), c.of(a.Index)}}
@@ -418,7 +449,7 @@ func (c *seeCtx) load(addr ssa.Value) *Expr {
 			if b, ok := c.fvs[a]; ok {
 				_ = b
 			}
-			return c.load(bv)
+			return c.load1(bv)
 		}
 		return &Expr{Op: OpFreeVar, Name: a.Name(), Typ: a.Type()}
 	}
@@ -539,7 +570,7 @@ func (c *seeCtx) loadAlloc(a *ssa.Alloc, path []int) *Expr {
 	for _, i := range path {
 		t = t.Underlying().(*types.Struct).Field(i).Type()
 	}
-	stores := storesToPlace(a, path)
+	stores := c.liveStores(storesToPlace(a, path), c.at)
 	var alts []*Expr
 	for _, ps := range stores {
 		val := c.of(ps.st.Val)
@@ -572,10 +603,9 @@ func (c *seeCtx) loadAlloc(a *ssa.Alloc, path []int) *Expr {
 				for i := 0; i < st.NumFields(); i++ {
 					if comp.Args[i] == nil {
 						comp.Args[i] = fieldOf(whole, st.Field(i), i)
-					} else {
-						// either override or original (flow-insensitive)
-						comp.Args[i] = mkPhi([]*Expr{comp.Args[i], fieldOf(whole, st.Field(i), i)}, st.Field(i).Type())
 					}
+					// fields with their own stores were computed by loadAlloc(a, sub), which
+					// already accounts for whole-value stores (projected, kill-filtered)
 				}
 			}
 			return comp
@@ -913,4 +943,58 @@ func (e *Expr) Contains(pred func(*Expr) bool) bool {
 		return true
 	})
 	return found
+}
+
+// liveStores drops stores that are overwritten before the load site: S1 is
+// dead when another store S2 to the same place satisfies S1 dom S2 dom load.
+// Only stores in the load's own function take part.
+func (c *seeCtx) liveStores(stores []placeStore, at ssa.Instruction) []placeStore {
+	if at == nil || len(stores) == 0 {
+		return stores
+	}
+	fn := at.Parent()
+	// Path mode: when every store lives in the load's function, the value is
+	// the last store executed on the path before the load.
+	if c.ps != nil {
+		all := true
+		for _, s := range stores {
+			if s.st.Parent() != fn {
+				all = false
+			}
+		}
+		if lp, ok := c.ps.pos(at); ok && all {
+			best, bestPos := -1, -1
+			for i, s := range stores {
+				if sp, ok := c.ps.pos(s.st); ok && sp < lp && sp > bestPos {
+					best, bestPos = i, sp
+				}
+			}
+			if best >= 0 {
+				return []placeStore{stores[best]}
+			}
+			return nil // no store executed yet on this path: zero value
+		}
+	}
+	if len(stores) < 2 {
+		return stores
+	}
+	var out []placeStore
+	for i, s1 := range stores {
+		dead := false
+		if s1.st.Parent() == fn {
+			for j, s2 := range stores {
+				if i == j || s2.st.Parent() != fn {
+					continue
+				}
+				if InstrDominates(s1.st, s2.st) && InstrDominates(s2.st, at) {
+					dead = true
+					break
+				}
+			}
+		}
+		if !dead {
+			out = append(out, s1)
+		}
+	}
+	return out
 }
